@@ -251,6 +251,20 @@ def record_eml(seed):
         w.track_tree(j)
     tr["events"].append({"op": "resync", "args": [], "ok": True, "ret": 0, "post": slim(w.pi(all_fields()))})
     strict = rnd.random() < 0.5
+    if seed % 3 != 0:
+        # prune started INSIDE the tree: on a planted (unknown or misplaced) node while it is attached, or on any inner node;
+        # judged on the whole tree - what the tree still lists stays registered, what left it is gone
+        attached = [x for x in w.nodes if x is not root and x.parent is not None and x in x.parent.children]
+        planted = [x for x in attached if x.name.startswith("junk")]
+        for target in ([rnd.choice(planted)] if planted and seed % 3 == 1 else []) + [rnd.choice(attached)]:
+            if not (target.parent is not None and target in target.parent.children):
+                continue
+            try:
+                validate.prune(target, strict=strict)
+                ok = True
+            except Exception as e:  # noqa: BLE001
+                ok = False
+            tr["events"].append({"op": "discarding", "args": [1, "prune"], "ok": ok, "ret": 0, "post": slim(w.pi(all_fields()))})
     try:
         validate.prune(root, strict=strict)
         ok = True
